@@ -59,8 +59,10 @@ def gen_table(rng, K):
     1-2 residues per chain, 1-3 atoms per residue, every field drawn from the spec's palettes."""
     nm = rng.choice([1, 1, 2, 2, 3])
     scheme = rng.random()
-    if scheme < 0.6:
+    if scheme < 0.52:
         models = list(range(1, nm + 1))
+    elif scheme < 0.6:
+        models = list(range(0, nm))          # numbering that starts at 0 (trajectory frames, some NMR depositions)
     elif scheme < 0.9:
         models = sorted(rng.sample(range(1, 40), nm))
     else:
